@@ -49,11 +49,25 @@ type Case struct {
 	Z      uint32      `json:"z"`
 	Target uint32      `json:"target"`
 	G      gen.G       `json:"g"`
+	Dense  *DenseLine  `json:"dense,omitempty"`  // kind "cover": a densified line instead of G (see micro_test.go)
 	Layout string      `json:"layout,omitempty"` // memory layout of the argument: shared | spare | plain (see layout_test.go)
 	Tiles  [][2]uint32 `json:"tiles,omitempty"`
 }
 
 type pt = [2]float64
+
+// gen2P is a lon/lat pair stored bit-exactly (gen.F) in replay files.
+type gen2P [2]gen.F
+
+func (p gen2P) pt() orb.Point { return orb.Point{float64(p[0]), float64(p[1])} }
+
+// geometry returns the geometry of a cover case.
+func (c Case) geometry() orb.Geometry {
+	if c.Dense != nil {
+		return c.Dense.line()
+	}
+	return c.G.V
+}
 
 type tkey struct{ x, y int64 }
 
@@ -152,6 +166,7 @@ type model struct {
 	inDom bool                // false once a member outside the quantifier was seen
 	why   string              // why not in the domain
 	polys []polyInfo          // per polygon info
+	verts []pt                // vertices of which the cover must hold a tile (within eps)
 }
 
 type polyInfo struct {
@@ -188,9 +203,32 @@ func (m *model) checkDomainPts(ps []orb.Point) {
 	}
 }
 
+// certain is the extent (in tiles) from which a geometry has positive extent
+// under ANY correctly rounded mercator projection: 2^-45 of the world width =
+// 128 ulp of the largest tile fraction of the zoom (2.8e-14 tile at zoom 0,
+// 1.2e-7 tile at zoom 22). The harness's projection and maptile.Fraction
+// differ by at most ~10 such ulps (worst near |lat| = 85), so two vertices
+// this far apart here are distinct there too. Geometries of smaller extent may
+// legitimately collapse to one tile fraction (orb then sees a zero-length
+// line): nothing is required of them.
+func certain(z uint32) float64 { return math.Ldexp(1, int(z)-45) }
+
+func extent(ps []pt) float64 {
+	if len(ps) == 0 {
+		return 0
+	}
+	minx, miny, maxx, maxy := ps[0][0], ps[0][1], ps[0][0], ps[0][1]
+	for _, p := range ps {
+		minx, maxx = math.Min(minx, p[0]), math.Max(maxx, p[0])
+		miny, maxy = math.Min(miny, p[1]), math.Max(maxy, p[1])
+	}
+	return math.Max(maxx-minx, maxy-miny)
+}
+
 func (m *model) addPoint(p orb.Point) {
 	m.checkDomainPts([]orb.Point{p})
 	q := project(p, m.z)
+	m.verts = append(m.verts, q)
 	m.allow = append(m.allow, pointAllow(q))
 	fx, fy := math.Floor(q[0]), math.Floor(q[1])
 	if q[0]-fx > eps && q[0]-fx < 1-eps && q[1]-fy > eps && q[1]-fy < 1-eps {
@@ -209,19 +247,25 @@ func projectAll(ps []orb.Point, z uint32) []pt {
 func (m *model) addLine(ls orb.LineString) {
 	m.checkDomainPts(ls)
 	ps := projectAll(ls, m.z)
-	total := 0.0
-	for i := 0; i+1 < len(ps); i++ {
-		total += math.Hypot(ps[i+1][0]-ps[i][0], ps[i+1][1]-ps[i][1])
-	}
-	if !(total > eps) {
-		// zero-length (or shorter than 1e-6 tile) line: outside the quantifier.
-		// Nothing is required; only tiles at the vertices are allowed.
-		m.outside("line string without positive length")
+	ext := extent(ps)
+	if !(ext >= certain(m.z)) {
+		// zero-length line, or a line whose whole extent is below the resolution
+		// of the tile fraction (orb may see it as zero-length): outside the
+		// quantifier. Nothing is required; only tiles at the vertices are allowed.
+		if ext == 0 {
+			m.outside("line string without positive length")
+		} else {
+			m.outside("line string of extent below the resolution of the tile fraction (2^-45 world widths)")
+		}
 		for _, p := range ps {
 			m.allow = append(m.allow, pointAllow(p))
 		}
 		return
 	}
+	// the line has positive length whatever the rounding of the projection:
+	// every tile a segment passes through (shrunk by eps) is required, however
+	// short the segment, and every vertex has a tile
+	m.verts = append(m.verts, ps...)
 	for i := 0; i+1 < len(ps); i++ {
 		a, b := ps[i], ps[i+1]
 		if a == b {
@@ -232,6 +276,15 @@ func (m *model) addLine(ls orb.LineString) {
 				m.req[k] = fmt.Sprintf("segment %d of a line passes through it", i)
 			}
 		})
+	}
+	if len(ps) > 64 {
+		// many segments: tabulate the allowed tiles once
+		allowed := map[tkey]bool{}
+		for i := 0; i+1 < len(ps); i++ {
+			segTiles(ps[i], ps[i+1], eps, func(k tkey) { allowed[k] = true })
+		}
+		m.allow = append(m.allow, func(k tkey) bool { return allowed[k] })
+		return
 	}
 	m.allow = append(m.allow, func(k tkey) bool {
 		for i := 0; i+1 < len(ps); i++ {
@@ -406,6 +459,13 @@ func (m *model) addPolygon(poly orb.Polygon) {
 		m.outside("polygon: " + why)
 		return
 	}
+	if !(extent(rings[0]) >= certain(m.z)) {
+		m.outside("polygon of extent below the resolution of the tile fraction (2^-45 world widths)")
+		return
+	}
+	for _, r := range rings {
+		m.verts = append(m.verts, r...)
+	}
 	bnd := map[tkey]bool{}
 	for ri, r := range rings {
 		for i := 0; i+1 < len(r); i++ {
@@ -437,6 +497,9 @@ func (m *model) addBound(b orb.Bound) {
 		m.outside("bound with Min > Max")
 	}
 	lo, hi := project(b.Min, m.z), project(b.Max, m.z)
+	if validBound(b) {
+		m.verts = append(m.verts, lo, hi)
+	}
 	x0, x1 := lo[0], hi[0]
 	y0, y1 := hi[1], lo[1] // larger latitude = smaller tile y
 	m.allow = append(m.allow, func(k tkey) bool {
@@ -575,6 +638,21 @@ func (m *model) verify(cover map[maptile.Tile]bool) error {
 			return fmt.Errorf("missing tile (%d,%d,z%d): %s", k.x, k.y, m.z, m.req[k])
 		}
 	}
+	// every vertex has a tile: one whose square, grown by eps, holds the vertex
+	// (near an edge or corner any of the 2 or 4 tiles around it will do)
+	for i, v := range m.verts {
+		found := false
+		for _, tx := range []float64{math.Floor(v[0] - eps), math.Floor(v[0] + eps)} {
+			for _, ty := range []float64{math.Floor(v[1] - eps), math.Floor(v[1] + eps)} {
+				if tx >= 0 && ty >= 0 && tx < float64(n) && ty < float64(n) && cover[maptile.New(uint32(tx), uint32(ty), maptile.Zoom(m.z))] {
+					found = true
+				}
+			}
+		}
+		if !found {
+			return fmt.Errorf("vertex %d of %d at tile position (%.17g, %.17g), zoom %d: none of the tiles within %g tile of it is in the cover (%d tiles)", i, len(m.verts), v[0], v[1], m.z, eps, len(cover))
+		}
+	}
 	return nil
 }
 
@@ -675,8 +753,9 @@ func evalCover(c Case) (info, error) {
 	z := maptile.Zoom(c.Z)
 	// the model works on an independent deep copy taken before any call; orb
 	// gets the geometry re-laid out with watched spare capacity
-	orig := gen.DeepCopy(c.G.V)
-	g, gd := layOut(c.G.V, c.Layout)
+	src := c.geometry()
+	orig := gen.DeepCopy(src)
+	g, gd := layOut(src, c.Layout)
 	readOnly := func(after string) error {
 		if same, what := gen.SameBits(g, orig); !same {
 			return fmt.Errorf("tile covers are read-only on their argument, but after %s it differs: %s", after, what)
@@ -769,6 +848,24 @@ func evalCover(c Case) (info, error) {
 		return inf, rerr
 	}
 
+	// results are independent values: scribble on the returned sets, repeat the
+	// call, and the fresh result is what the first one was
+	scribble(set, c.Z)
+	if tset != nil {
+		scribble(tset, c.Z)
+	}
+	set2, err2 := tilecover.Geometry(g, z)
+	if err2 != nil {
+		return inf, fmt.Errorf("second tilecover.Geometry call returned %v, the first none", err2)
+	}
+	if t, ok := sameSet(cover, members(set2)); !ok {
+		return inf, fmt.Errorf("after writing into the returned tile set, the same tilecover.Geometry call gives a different cover (tile %v): results are not independent values", t)
+	}
+	tset2, _ := typedCover(g, z)
+	if t, ok := sameSet(cover, members(tset2)); !ok {
+		return inf, fmt.Errorf("after writing into the returned tile set, the same typed cover call gives a different cover (tile %v): results are not independent values", t)
+	}
+
 	// merging the cover upward
 	tiles := make([]maptile.Tile, 0, len(cover))
 	for t := range cover {
@@ -801,6 +898,24 @@ func evalMerge(c Case) (info, error) {
 	merged, err := checkMerge(tiles, c.Z, c.Target)
 	inf.mergedQuad = merged
 	return inf, err
+}
+
+// scribble overwrites a returned tile set: every entry is switched off, some
+// are deleted, and foreign tiles (other zooms, invalid ones) are added.
+func scribble(s maptile.Set, z uint32) {
+	i := 0
+	for t := range s {
+		if i%3 == 0 {
+			delete(s, t)
+		} else {
+			s[t] = false
+		}
+		i++
+	}
+	s[maptile.New(0, 0, maptile.Zoom(z))] = true
+	s[maptile.New(1, 1, maptile.Zoom(z+1))] = true
+	s[maptile.New(1<<31, 7, 3)] = true
+	s[maptile.Tile{}] = false
 }
 
 // ---------------------------------------------------------------- merge
@@ -858,6 +973,17 @@ func checkMerge(in []maptile.Tile, Z, target uint32) (mustMerge bool, err error)
 	}
 	if t, ok := sameSet(outP, members(res2)); !ok || len(res2) < len(outP) {
 		return mustMerge, fmt.Errorf("result of MergeUpPartial(%d tiles at zoom %d, %d, 4) changed when another set was merged afterwards (tile %v)", len(in), Z, target, t)
+	}
+
+	// results are independent values: scribble on both, merge the same input
+	// again, and the fresh results are what the first ones were
+	scribble(res1, Z)
+	scribble(res2, Z)
+	if t, ok := sameSet(out, members(tilecover.MergeUp(mkSet(in), maptile.Zoom(target)))); !ok {
+		return mustMerge, fmt.Errorf("after writing into the returned sets, MergeUp(%d tiles at zoom %d, %d) gives a different result (tile %v): results are not independent values", len(in), Z, target, t)
+	}
+	if t, ok := sameSet(out, members(tilecover.MergeUpPartial(mkSet(in), maptile.Zoom(target), 4))); !ok {
+		return mustMerge, fmt.Errorf("after writing into the returned sets, MergeUpPartial(%d tiles at zoom %d, %d, 4) gives a different result (tile %v): results are not independent values", len(in), Z, target, t)
 	}
 	return mustMerge, nil
 }
@@ -960,6 +1086,18 @@ func TestReplay(t *testing.T) {
 	_, raw, ok := stats.Replaying()
 	if !ok {
 		t.Skip("no replay file")
+	}
+	if name, _, _ := stats.Replaying(); name == "TestPropConcurrent" {
+		var cs []Case
+		if err := json.Unmarshal(raw, &cs); err != nil {
+			t.Fatal(err)
+		}
+		for k := 0; k < 20; k++ {
+			if err := stats.ParallelErr(len(cs), 100, func(i int) error { return checkCase(cs[i]) }); err != nil {
+				t.Fatalf("replayed concurrent group still fails: %v", err)
+			}
+		}
+		return
 	}
 	var c Case
 	if err := json.Unmarshal(raw, &c); err != nil {
